@@ -151,7 +151,7 @@ Definition run_call (cl : cleanup_call) (s : fin_state) : fin_state :=
       mkFin g' q' (s_fs s) (s_files s) (s_dirs s) (s_err s)
   | CDeleteDetached =>
       let o := workflow_dd (s_g s) in
-      mkFin (dd_g o) (queue_deleted (dd_deleted o) (s_q s)) (s_fs s) (s_files s) (s_dirs s)
+      mkFin (dd_g o) (queue_deleted (attached_tree_labels (s_g s)) (dd_deleted o) (s_q s)) (s_fs s) (s_files s) (s_dirs s)
             (s_err s || dd_err o)
   | CRemoveFiles =>
       let r := remove_deletable_files (s_q s) (s_fs s) in
